@@ -22,7 +22,7 @@ func init() {
 	core.Register(&core.Check{
 		ID:    "C13",
 		Level: "fault_enumeration",
-		Rule: "E-proc conservation: thousands of create/use/close cycles over prior histories {idle, 1-40 watches, pending events nobody reads, pending error (overflow marker is too costly per cycle: rename-then-delete family), 1-8 concurrent Close, Close racing Add/Remove}; " +
+		Rule: "E-proc conservation: thousands of create/use/close cycles over prior histories {idle, 1-40 watches, pending events nobody reads, pending error (rename-then-delete family; plus one REAL queue overflow per fourth batch with Events drained and the overflow error left pending), 1-8 concurrent Close, Close racing Add/Remove}; " +
 			"after Close returned and both channels closed, within a bounded number of polls: number of anon_inode:inotify descriptors == baseline, the Watcher's own descriptor number no longer names an inotify instance, total descriptors == baseline, no goroutine with a readEvents frame. " +
 			"History kind deleted-watch-pending (the kernel dropped a watch nobody has processed yet); the descriptor must be close-on-exec; Watchers are kept reachable until judged so no finalizer hides a leak. " +
 			"Injected faults: strace EIO on the inotify read followed by Close; RLIMIT_NOFILE lowered to the number of open descriptors so the first syscall of NewWatcher/NewBufferedWatcher fails with EMFILE, repeated; descriptors and goroutines must stay flat. " +
@@ -30,7 +30,7 @@ func init() {
 		Assumptions: []string{"closing the inotify instance releases its kernel marks (kernel semantics; per-user mark accounting is not readable)", "'shortly after' = within 2000 polls of 100 us after the channels closed; not reaching baseline within that is a violation only if it persists to the end of the batch"},
 		Batches:     func(t string) int { return map[string]int{"quick": 16, "thorough": 32}[t] },
 		RaceBatches: func(t string) int { return map[string]int{"quick": 1, "thorough": 8}[t] },
-		MustObserve: []string{"cycles", "failed_newwatcher_calls", "cycles_back_at_baseline"},
+		MustObserve: []string{"cycles", "failed_newwatcher_calls", "cycles_back_at_baseline", "overflow_error_pending_at_close"},
 		Run:         runC13,
 	})
 }
@@ -94,6 +94,10 @@ func runC13(c *core.Ctx) {
 	for i := 0; i < cycles; i++ {
 		rng := rand.New(rand.NewSource(rng0.Int63()))
 		kind := []string{"idle", "watches", "pending-events", "pending-error", "concurrent-close", "close-racing-api", "deleted-watch-pending"}[rng.Intn(7)]
+		if i == 5 && c.Batch%4 == 0 && !c.Race {
+			// one real queue overflow per fourth batch: Events drained, the overflow error left pending
+			kind = "overflow-error-pending"
+		}
 		buf := []int{-1, 0, 8, 4096}[rng.Intn(4)]
 		var w *fsnotify.Watcher
 		var err error
@@ -126,9 +130,24 @@ func runC13(c *core.Ctx) {
 		}
 		consume := kind != "pending-events" && kind != "pending-error" && kind != "deleted-watch-pending"
 		cdone := make(chan struct{})
+		var ovEvents, ovSends int64
+		ovGate := make(chan struct{})
+		if kind == "overflow-error-pending" {
+			fsnotify.VerifSetHooks(&fsnotify.VerifHooks{Send: func(func() bool) { atomic.AddInt64(&ovSends, 1) }})
+		}
 		go func() {
 			defer close(cdone)
 			evc, erc := w.Events, w.Errors
+			if kind == "overflow-error-pending" {
+				// nothing is received until the burst is complete; then Events only, until it closes
+				<-ovGate
+				for range evc {
+					atomic.AddInt64(&ovEvents, 1)
+				}
+				for range erc {
+				}
+				return
+			}
 			for evc != nil || erc != nil {
 				if !consume {
 					// take nothing until the channels close
@@ -171,6 +190,31 @@ func runC13(c *core.Ctx) {
 				os.WriteFile(p, nil, 0o644)
 				os.Remove(p)
 			}
+		case "overflow-error-pending":
+			mq := maxQueued()
+			od := filepath.Join(base, "ov")
+			os.Mkdir(od, 0o755)
+			w.Add(od)
+			for k := 0; k < mq+300; k++ {
+				os.WriteFile(filepath.Join(od, fmt.Sprint("o", k)), nil, 0o644)
+			}
+			close(ovGate)
+			// logical condition: every queued event consumed and the reader has begun one more send
+			// (the overflow error; nothing else is queued). The cap only bounds a broken run.
+			reached := false
+			for p := 0; p < 150000; p++ {
+				ne := atomic.LoadInt64(&ovEvents)
+				if ne >= int64(mq) && atomic.LoadInt64(&ovSends) > ne {
+					reached = true
+					break
+				}
+				time.Sleep(100 * time.Microsecond)
+			}
+			fsnotify.VerifSetHooks(nil)
+			os.RemoveAll(od)
+			if reached {
+				c.Count("overflow_error_pending_at_close", 1)
+			}
 		case "deleted-watch-pending":
 			f := filepath.Join(base, "dw")
 			os.WriteFile(f, nil, 0o644)
@@ -208,17 +252,23 @@ func runC13(c *core.Ctx) {
 			}
 		}
 		var hung int32
+		var hungDump atomic.Value
 		for k := 0; k < closers; k++ {
 			wg.Add(1)
 			go func() {
 				defer wg.Done()
-				if ok, _ := core.WithWatchdog(twin.WatchdogTimeout, func() { w.Close() }); !ok {
+				if ok, dump := core.WithWatchdog(twin.WatchdogTimeout, func() { w.Close() }); !ok {
+					hungDump.Store(dump)
 					atomic.StoreInt32(&hung, 1)
 				}
 			}()
 		}
 		wg.Wait()
 		if atomic.LoadInt32(&hung) == 1 {
+			if cls, d := persistentHangClass(hungDump.Load().(string)); cls == "api-waits-for-reader-parked-in-send" {
+				c.Violate("close-waits-for-a-reader-that-never-exits", fmt.Sprintf("cycle %d [%s watches=%d closers=%d buffer=%d]: Close waits for the reader goroutine, which is parked in a send nobody receives and does not react to Close: the goroutine, its buffer and the channels are never released", i, kind, nw, closers, buf), dumpExcerpt(d))
+				return
+			}
 			c.Inconclusive("Close did not return (C05/C06 territory); cycle " + fmt.Sprint(i))
 			return
 		}
